@@ -164,11 +164,18 @@ def _prune(d, keep, protect, min_age_s=3 * 3600):
     except OSError:
         return
     ents = [e for e in ents if os.path.isdir(e) and not e.endswith(('.lock', '.build', '.tmp'))]
-    ents.sort(key=lambda e: os.path.getmtime(e), reverse=True)
+
+    def mtime(e):
+        # other processes create, rename and prune entries concurrently
+        try:
+            return os.path.getmtime(e)
+        except OSError:
+            return time.time()
+    ents.sort(key=mtime, reverse=True)
     now = time.time()
     for e in ents[keep:]:
         try:
-            if os.path.basename(e) not in protect and now - os.path.getmtime(e) > min_age_s:
+            if os.path.basename(e) not in protect and now - mtime(e) > min_age_s:
                 shutil.rmtree(e, ignore_errors=True)
         except OSError:
             pass
@@ -214,8 +221,11 @@ def ensure_overlay(root=None, verbose=False):
             os.utime(p, (now, now))
         except OSError:
             pass
-    _prune(os.path.join(cache, 'tree'), 6, {tree_hash})
-    _prune(os.path.join(cache, 'ext'), 4, {ext_hash})
+    try:
+        _prune(os.path.join(cache, 'tree'), 6, {tree_hash})
+        _prune(os.path.join(cache, 'ext'), 4, {ext_hash})
+    except Exception:
+        pass        # housekeeping must never fail a check
     return dict(overlay=tree_dir, home=os.path.join(ext_dir, 'home'),
                 ext_hash=ext_hash, tree_hash=tree_hash)
 
